@@ -48,7 +48,7 @@ def _bodies(db, name):
 def ask_siblings(ctx, db):
     rid = ctx.rule('C13.ask-siblings', 'SIBLINGS', 'next_sync, next_async and next_future each (a) throw no_more_values_exception on the edge where the coroutine handle reports done, and (b) '
                    'write the asker (_caller) before the generator is resumed / its handle is returned, on every other path', floor=3)
-    T = Tracer(db, depth=0)
+    T = htracer(db)
     for name in ASK:
         seen_bad = None; f0 = None
         for f in _bodies(db, name)[:4]:
@@ -73,7 +73,7 @@ def ask_siblings(ctx, db):
                     if done is None:
                         seen_bad = seen_bad or (f, 'a path asks without testing whether the coroutine is finished (resuming a finished coroutine is undefined)', tr)
                     w = index_of(tr, lambda ev: ev.k == 'write' and field_of(ev) == P + '::_caller')
-                    go = index_of(tr, lambda ev: (ev.k == 'call' and norm(ev.get('callee')) in ('std::coroutine_handle::resume', 'std::coroutine_handle::operator()')) or ev.k == 'return' and name.endswith('next_async'))
+                    go = index_of(tr, lambda ev: (ev.k == 'call' and norm(ev.get('callee')) in ('std::coroutine_handle::resume', 'std::coroutine_handle::operator()')) or ev.k == 'return' and ev.get('depth', 0) == 0 and name.endswith('next_async'))
                     if w < 0 or (go >= 0 and w > go):
                         seen_bad = seen_bad or (f, 'the asker is not recorded before the generator body runs (the yield would find nobody to wake)', tr)
                     # (c) an access style that parks the shared internal awaiter as the asker configures it for itself first: the other style
@@ -94,15 +94,18 @@ def ask_siblings(ctx, db):
 def hooks(ctx, db):
     rid = ctx.rule('C13.hooks', 'COUNT', 'coroutine hooks of the generator promise, on every path: yield_value(T&)/(T&&) store the address of their argument into _ret; final_suspend stores null into '
                    '_ret; return_void stores true into _done; unhandled_exception stores current_exception() into _exp', floor=4)
-    spec = ((P + '::final_suspend', P + '::_ret', lambda w: w.get('const') == 0, 'final_suspend clears the value pointer'),
+    spec = ((P + '::final_suspend', P + '::_ret', lambda w: w.get('const') == 0 or (w.get('rhs') or '') in NULLS, 'final_suspend clears the value pointer'),
             (P + '::return_void', P + '::_done', lambda w: w.get('const') == 1, 'return_void marks the generator done'),
             (P + '::unhandled_exception', P + '::_exp', None, 'unhandled_exception stores the exception'))
-    T = Tracer(db, depth=0)
+    T = htracer(db)
     for f in db.need(P + '::yield_value'):
         if any('nullptr_t' in p['type'] for p in f['params']):
             continue
-        ws = [e for e in f.events() if e.k == 'write' and field_of(e) == P + '::_ret']
-        ok = len(ws) == 1 and re.fullmatch(r'&\(param:\w+\)', ws[0].get('rhs') or '') and not has_back_edge(f) and not any(b.get('cond') for b in f['blocks'])
+        trs_ = [t for t in T.traces(f) if live(t)]
+        ok = bool(trs_)
+        for tr in trs_:
+            ws = [it for it in tr if it.k == 'write' and field_of(it) == P + '::_ret']
+            ok = ok and len(ws) == 1 and bool(re.fullmatch(r'&\(param:\w+\)', ws[0].get('rhs') or ''))
         ctx.ob(rid, f, f['key'], bool(ok), 'yield_value publishes the address of the yielded object', desc='yield_value does not store the address of its argument into _ret')
     for name, fld, pred, what in spec:
         for f in db.need(name)[:1]:
@@ -121,7 +124,7 @@ def wake_asker_once(ctx, db):
     rid = ctx.rule('C13.wake-asker-once', 'COUNT+NO-TOUCH', 'yield_suspend::await_suspend: the argument pointer is cleared and the asker taken by exchange(_caller, nullptr) before the asker is resumed; '
                    'the asker is resumed exactly once; nothing of the generator promise is read or written after that resume (the consumer may already have supplied the next '
                    'argument, re-entered or destroyed the generator)', floor=1)
-    T = Tracer(db, depth=0)
+    T = htracer(db)
     fns = db.need(P + '::yield_suspend::await_suspend')
     seen_bad = None
     for f in fns:
@@ -198,7 +201,7 @@ def unblock_future(ctx, db):
 def sync_block(ctx, db):
     rid = ctx.rule('C13.sync-block', 'ORDER', 'next_sync: the blocking flag is reset (store false) before the generator is resumed, and the thread waits on it after the resume; unblock_sync stores true '
                    'and then notifies', floor=2)
-    T = Tracer(db, depth=0)
+    T = htracer(db)
     fns = db.need(P + '::next_sync')
     seen_bad = None
     for f in fns[:3]:
